@@ -87,7 +87,7 @@ pred outStatus() := ptr(outResp, "*httpprot.Response").Response.StatusCode
 
 func (v *Validator) Handle(ctx *context.Context) (result string)
   flag allocates
-  flag frame=unchecked
+  modifies allof("elem<string>"), allof("ghost:.jwtKeyOwner"), allof("ghost:.rdRem"), allof("ghost:github.com/megaease/easegress/pkg/context.outResp"), allof("ghost:github.com/megaease/easegress/pkg/context.outRespTyp"), allof("ghost:github.com/megaease/easegress/pkg/filters/validator.gBasicAsked"), allof("ghost:github.com/megaease/easegress/pkg/filters/validator.gBasicPass"), allof("ghost:github.com/megaease/easegress/pkg/filters/validator.gBasicUser"), allof("ghost:github.com/megaease/easegress/pkg/filters/validator.gJwtErr#typ"), allof("ghost:github.com/megaease/easegress/pkg/filters/validator.gJwtErr#val"), allof("ghost:github.com/megaease/easegress/pkg/filters/validator.gJwtParsed"), allof("ghost:github.com/megaease/easegress/pkg/filters/validator.gJwtTok"), allof("map<string,[]string>#dom"), allof("map<string,[]string>#val#arr"), allof("map<string,[]string>#val#cap"), allof("map<string,[]string>#val#len"), allof("net/http.Request.Body#typ"), allof("net/http.Request.Body#val")
   requires v != nil && ctx != nil && ctxInput(ref(ctx)) != 0
   requires validators-are-built-whole: (v.headers != nil ==> v.headers.spec != nil && (forall k string :: (k in *v.headers.spec) ==> (*v.headers.spec)[k] != nil)) && (v.jwt != nil ==> v.jwt.spec != nil) && (v.basicAuth != nil ==> v.basicAuth.authorizedUsersCache != nil)
   requires as-it-arrives-through-the-http-server: inReq(ctx).stream == nil && signer.fwdLen(ref(inReq(ctx).Request)) == len(inReq(ctx).payload)
@@ -98,7 +98,7 @@ func (v *Validator) Handle(ctx *context.Context) (result string)
   ensures credentials-answer-401: result != "" && old(hdrOK(v, inReq(ctx))) ==> outStatus() == 401
   closure[1] (status int, tagPrefix string, err error)
     flag allocates
-    flag frame=unchecked
+    modifies allof("ghost:github.com/megaease/easegress/pkg/context.outResp"), allof("ghost:github.com/megaease/easegress/pkg/context.outRespTyp")
     requires ctx != nil
     ensures outResp != 0 && fresh(ptr(outResp, "*httpprot.Response")) && ptr(outResp, "*httpprot.Response").Response != nil && ptr(outResp, "*httpprot.Response").Response.StatusCode == status
   end
